@@ -104,6 +104,8 @@ pub struct Exec<'a> {
     ilv: u64,
 }
 
+const MSG_BUDGET: usize = 400;
+
 const COMPLETIONS_MID: &[&[u8]] = &[
     b"", b":", b"x:", b"G / HTTP/1.1", b" / HTTP/1.1", b"/ HTTP/1.1", b" HTTP/1.1", b"HTTP/1.1", b"TTP/1.1", b"TP/1.1", b"P/1.1", b"/1.1", b"1.1", b".1", b"1", b"HTTP/1.1 200",
     b"TTP/1.1 200", b"TP/1.1 200", b"P/1.1 200", b"/1.1 200", b"1.1 200", b".1 200", b"1 200", b" 200", b"200", b"00", b"0",
@@ -647,6 +649,14 @@ impl<'a> Exec<'a> {
             if rx.mode == RMode::Closed {
                 return;
             }
+            // a stream that decomposes into thousands of tiny messages (e.g. a body of CRLFs read
+            // as empty header blocks) is cut off after a fixed number of them — a property of the
+            // stream, not of how it was chunked, so both schedules stop at the same message
+            if rx.hist.len() >= MSG_BUDGET && matches!(rx.mode, RMode::Head | RMode::ChunkSize) {
+                rx.hist.push(HEv::End { consumed: rx.consumed, how: "message-budget".into() });
+                rx.mode = RMode::Closed;
+                return;
+            }
             let avail = &c.wire[rx.consumed..upto];
             let future = &c.wire[upto..];
             if avail.is_empty() && rx.consumed > 0 {
@@ -940,7 +950,7 @@ impl<'a> Exec<'a> {
                     }
                     Some(HEv::End { how, .. }) => {
                         // legitimate only if capacity binds or the stream was cut
-                        let cut = c.faults.iter().any(|f| f.kind == "eof") || !c.faults.is_empty();
+                        let cut = c.faults.iter().any(|f| f.kind == "eof") || !c.faults.is_empty() || how == "message-budget";
                         let cap_small = m.headers.len() > t.cap || cap_may_bind;
                         if !(cut || (how == "error-TooManyHeaders" && cap_small)) {
                             self.push(3, "sender-truth", format!("conn{} message {}: connection ended with {} although the sender's stream is intact", ci, mi, how));
@@ -978,7 +988,7 @@ impl<'a> Exec<'a> {
                                 hi += 1;
                             }
                             Some(HEv::End { how, .. }) => {
-                                let cut = !c.faults.is_empty();
+                                let cut = !c.faults.is_empty() || how == "message-budget";
                                 if !cut {
                                     self.push(9, "sender-truth", format!("conn{} message {} chunk {}: connection ended with {} although the sender's stream is intact", ci, mi, k, how));
                                 }
@@ -1022,7 +1032,7 @@ impl<'a> Exec<'a> {
                             self.push(3, "conservation", format!("conn{}: clean end but {} of {} bytes consumed", ci, consumed, c.wire.len()));
                         }
                     }
-                    Some(HEv::End { how, .. }) if how == "error-TooManyHeaders" => {}
+                    Some(HEv::End { how, .. }) if how == "error-TooManyHeaders" || how == "message-budget" => {}
                     Some(HEv::End { how, consumed }) => {
                         self.push(3, "conservation", format!("conn{}: intact stream of strict messages ended with {} after {} of {} bytes", ci, how, consumed, c.wire.len()));
                     }
@@ -1084,8 +1094,13 @@ impl<'a> Exec<'a> {
                 _ => Place { mode: Mode::StartGuard, align: 0, tail: Tail::Bait },
             };
             let spec = self.spec(kind, t.entry, if kind == Kind::Req || kind == Kind::Resp { t.cfg } else { 0 }, t.cap);
+            // a fresh value per cut: its placements can be recycled as soon as the call is observed
+            // (thousands of cuts of a long head would otherwise exhaust the process's mappings)
+            let m = self.arena.mark();
             let mut s = Session::new();
             let o = self.checked(&mut s, &spec, &b[..k], place, &b[k..], false, Scen::Sweep);
+            drop(s);
+            self.arena.release(m);
             if o.st == St::Panic {
                 continue;
             }
